@@ -299,6 +299,9 @@ fn check_vec<T: PartialEq + std::fmt::Debug + Clone>(name: &str, rate: f64, sols
 /// The mutation rate is state (`MutationRate<T>`), adaptable after initialisation: with the state set to 0
 /// nothing may change whatever rate the component was constructed with. Returns the changed solutions.
 fn run_adapted_rate(which: u8, cfg_rate: f64, reinit: bool) -> Result<Vec<String>, String> {
+    if cfg_rate < 0.0 {
+        return run_two_identifiers(which);
+    }
     use mahf::components::mutation::MutationRate;
     use mahf::identifier::Global;
     macro_rules! go {
@@ -339,12 +342,46 @@ fn run_adapted_rate(which: u8, cfg_rate: f64, reinit: bool) -> Result<Vec<String
         _ => go!(TspP, tsp(4), mu::ScrambleMutation<Global>, |r| mu::ScrambleMutation::new::<TspP>(r), perms),
     }
 }
+/// Two instances of one mutation under different identifiers keep separate rates: the instance under A is
+/// constructed with rate 0, the one under B with rate 1 and initialised later; executing A changes nothing.
+fn run_two_identifiers(which: u8) -> Result<Vec<String>, String> {
+    use mahf::identifier::{A, B};
+    macro_rules! go {
+        ($P:ty, $problem:expr, $mka:expr, $mkb:expr, $sols:expr) => {{
+            let problem = $problem;
+            let sols = $sols;
+            let pop: Vec<Individual<$P>> = sols.iter().map(|s| Individual::new(s.clone(), crate::subject::problems::so(1.0))).collect();
+            let mut st = state_with::<$P>(vec![pop]);
+            let a: Box<dyn Component<$P>> = $mka;
+            let b: Box<dyn Component<$P>> = $mkb;
+            a.init(&problem, &mut st).map_err(|e| format!("init: {:#}", e))?;
+            b.init(&problem, &mut st).map_err(|e| format!("init: {:#}", e))?;
+            a.require(&problem, &st.requirements()).map_err(|e| format!("require: {:#}", e))?;
+            a.execute(&problem, &mut st).map_err(|e| format!("execute: {:#}", e))?;
+            let after: Vec<_> = st.populations().current().iter().map(|i| i.solution().clone()).collect();
+            Ok(sols.iter().zip(&after).filter(|(x, y)| format!("{:?}", x) != format!("{:?}", y)).map(|(x, y)| format!("{:?} -> {:?}", x, y)).collect())
+        }};
+    }
+    let reals = vec![vec![0.25, -0.5, 1.5], vec![1.0, 0.0, -1.0]];
+    let bits = vec![vec![true, false, true, true], vec![false, false, true, false]];
+    let perms = vec![vec![2usize, 0, 3, 1], vec![0, 1, 2, 3]];
+    match which {
+        0 => go!(RealP, realp(3), mu::NormalMutation::<A>::new_with_id::<RealP>(0.5, 0.0), mu::NormalMutation::<B>::new_with_id::<RealP>(0.5, 1.0), reals),
+        1 => go!(RealP, realp(3), mu::UniformMutation::<A>::new_with_id::<RealP>(0.5, 0.0), mu::UniformMutation::<B>::new_with_id::<RealP>(0.5, 1.0), reals),
+        2 => go!(RealP, realp(3), mu::PartialRandomSpread::<A>::new_with_id::<RealP>(0.0), mu::PartialRandomSpread::<B>::new_with_id::<RealP>(1.0), reals),
+        3 => go!(BinP, BinP { dim: 4, instr: Instr::new() }, mu::BitFlipMutation::<A>::new_with_id::<BinP>(0.0), mu::BitFlipMutation::<B>::new_with_id::<BinP>(1.0), bits),
+        4 => go!(BinP, BinP { dim: 4, instr: Instr::new() }, mu::PartialRandomBitstring::<A>::new_with_id::<BinP>(0.5, 0.0), mu::PartialRandomBitstring::<B>::new_with_id::<BinP>(0.5, 1.0), bits),
+        _ => go!(TspP, tsp(4), mu::ScrambleMutation::<A>::new_with_id::<TspP>(0.0), mu::ScrambleMutation::<B>::new_with_id::<TspP>(1.0), perms),
+    }
+}
 const ADAPTED: [&str; 6] = ["NormalMutation", "UniformMutation", "PartialRandomSpread", "BitFlipMutation", "PartialRandomBitstring", "ScrambleMutation"];
 
 fn check_adapted_rate(which: u8, cfg_rate: f64, reinit: bool, out: &Outcome<Result<Vec<String>, String>>) -> Option<(String, String)> {
-    let head = format!("C13 op={} {}", ADAPTED[which as usize], if reinit { "rate-zero-after-earlier-initialisation" } else { "adapted-rate" });
+    let head = format!("C13 op={} {}", ADAPTED[which as usize], if cfg_rate < 0.0 { "rate-zero-next-to-another-identifier" } else if reinit { "rate-zero-after-earlier-initialisation" } else { "adapted-rate" });
     let ctx = |w: String| {
-        if reinit {
+        if cfg_rate < 0.0 {
+            format!("{} under identifier A with rate 0, next to an instance under identifier B with rate 1 that was initialised later: {}", ADAPTED[which as usize], w)
+        } else if reinit {
             format!("{} constructed with rate 0 and initialised on a state on which an instance with rate 1 had been initialised before: {}", ADAPTED[which as usize], w)
         } else {
             format!("{} constructed with rate {}, MutationRate state set to 0 after init: {}", ADAPTED[which as usize], cfg_rate, w)
@@ -1085,7 +1122,7 @@ pub fn run(rep: &mut Report) {
     // ---- rate adapted through the state after initialisation ----
     let mut part = Part::new("components.adapted-rate");
     for which in 0..ADAPTED.len() as u8 {
-        for (cfg_rate, reinit) in [(1.0, false), (0.5, false), (0.0, false), (0.0, true)] {
+        for (cfg_rate, reinit) in [(1.0, false), (0.5, false), (0.0, false), (0.0, true), (-1.0, false)] {
             let cfg = Cfg::prefix(&MENU4, 3, seed ^ (which as u64 * 31));
             let body = || run_adapted_rate(which, cfg_rate, reinit);
             tape::explore(&cfg, &body, &mut |prefix, out, _| {
